@@ -160,6 +160,7 @@ type Fwd struct {
 	To   string
 	From string
 	T    *Ty
+	Pol  string // explicit polarity annotation printed in front of From ("+", "-" or "")
 }
 type Split struct {
 	X1, X2, From string
@@ -215,9 +216,9 @@ func (t *Close) Str() string {
 func (t *Wait) Str() string  { return fmt.Sprintf("wait %s; %s", t.X, t.K.Str()) }
 func (t *Fwd) Str() string {
 	if t.To != "" {
-		return "fwd " + t.To + " " + t.From
+		return "fwd " + t.To + " " + t.Pol + t.From
 	}
-	return "fwd self " + t.From
+	return "fwd self " + t.Pol + t.From
 }
 func (t *Split) Str() string {
 	return fmt.Sprintf("<%s, %s> <- split %s; %s", t.X1, t.X2, t.From, t.K.Str())
